@@ -205,6 +205,14 @@ func C07(c *Ctx) {
 		NonTrivial:  func(o *e1.Outcome) bool { return o.OptFired },
 		MinDistinct: 500,
 		Judge: func(c *Ctx, o *e1.Outcome) bool {
+			if o.CompilePanic == "" && strings.Contains(o.BuildErr, "imported and not used") {
+				// whatever stage 1 looks like (it never cleans imports): the import clean-up kept an import that
+				// breaks the build of the final package
+				c.Rep.Violate(verdict.Violation{Case: o.Prog.Name, Sig: "import-kept-that-breaks-the-build:" + buildSig(o.BuildErr),
+					What:   "the import clean-up of the optimiser left an unused import in the generated file:\n" + trimTo(o.BuildErr, 1500) + "\n--- source\n" + o.CoSource,
+					Replay: replayDoc{Engine: "e1", Program: o.Prog, Stage1: true, CoSrc: o.CoSource, Output: o.OutText}})
+				return true
+			}
 			if o.CompilePanic == "" && o.BuildErr != "" && o.S1BuildErr == "" {
 				c.Rep.Violate(verdict.Violation{Case: o.Prog.Name, Sig: "optimised-does-not-build:" + buildSig(o.BuildErr),
 					What:   "the optimised package does not build although the unoptimised stage-1 package does:\n" + trimTo(o.BuildErr, 1500) + "\n--- source\n" + o.CoSource,
